@@ -54,6 +54,24 @@ func init() {
 		},
 		LevelNote: "Lookup: GetEncryptionKey is proved against the matching rule kmatch of the property (both directions stated in the property, and newest-timestamp preference) for every keytab and query. Parsing: the readers are proved to decode exactly the bytes at the cursor in the file's byte order and to advance it; Unmarshal is proved memory-safe and terminating.",
 	}
+	props["C17"] = &PropDef{
+		Funcs: []string{
+			`(*gssapi.WrapToken).Marshal`, `(*gssapi.WrapToken).Unmarshal`, `(*gssapi.WrapToken).computeCheckSum`, `(*gssapi.WrapToken).Verify`,
+			`(*gssapi.WrapToken).SetCheckSum`, `gssapi.getChecksumHeader`, `gssapi.NewInitiatorWrapToken`,
+			`(*gssapi.MICToken).Marshal`, `(*gssapi.MICToken).Unmarshal`, `(*gssapi.MICToken).checksum`, `(*gssapi.MICToken).Verify`,
+			`(*gssapi.MICToken).SetChecksum`, `(*gssapi.MICToken).getMICChecksumHeader`, `gssapi.NewInitiatorMICToken`,
+			`crypto.GetEtype`, `\(crypto\.[A-Za-z0-9]+\)\.GetETypeID`, `\(crypto\.[A-Za-z0-9]+\)\.GetHMACBitLength`,
+		},
+		Kinds:           kinds(contractKinds...),
+		NeedObligations: true,
+		QuickTimeout:    20,
+		Assumptions: []string{
+			"the keyed checksum of an etype is the uninterpreted function et_cksum(etype, key, usage, data) given by the contract of etype.EType.GetChecksumHash; that the six implementations compute the RFC value is property C07; that distinct inputs give distinct checksums (so that every bit of header and payload matters) is the MAC assumption",
+			"Seq values (byte sequences passed to uninterpreted primitives) are equal iff they have the same length and bytes (extensional reading; stated as facts by the models of bytes.Equal / hmac.Equal)",
+		},
+		NotDecided: []string{"interoperation with an independent implementation is covered only through the RFC 4121 layouts stated as postconditions"},
+		LevelNote:  "Proved for every payload, flags byte, sequence number, key and usage: Marshal produces exactly the RFC 4121 4.2.6 layout; Unmarshal accepts exactly the byte strings with the right identifier, filler, direction flag and consistent EC and returns their fields; the checksum is et_cksum over { payload | header with EC=RRC=0 } (4.2.4); Verify returns true only if the token checksum equals that value; the initiator constructors use usages 24/25, flags 0.",
+	}
 	props["C04"] = &PropDef{
 		Funcs: []string{
 			// decoders
